@@ -4,6 +4,7 @@ import (
 	"go/ast"
 	"go/token"
 	"go/types"
+	"regexp"
 	"sort"
 	"strings"
 
@@ -40,6 +41,23 @@ var domainFixedVersion = map[string][]string{
 	"DOMAIN_BLS_TO_EXECUTION_CHANGE": {"GENESIS_FORK_VERSION"},
 	"DOMAIN_VOLUNTARY_EXIT":          {"CAPELLA_FORK_VERSION"}, // deneb EIP-7044 (the only ComputeDomain use for exits)
 	"DOMAIN_BEACON_PROPOSER":         {"version"},              // envelope check: caller-supplied version of the block's slot
+}
+
+// domainEpoch: for domains derived from the state's fork at a message epoch (GetDomain / domain function), the spec's
+// epoch source, as regexes over the (local-resolved) epoch argument.
+var domainEpoch = map[string]struct {
+	want string
+	re   []string
+}{
+	"DOMAIN_VOLUNTARY_EXIT":                 {"voluntary_exit.epoch", []string{`(?i)exit[\w\.]*\.Epoch$`, `Message\.Epoch$`}},
+	"DOMAIN_BEACON_ATTESTER":                {"attestation.data.target.epoch", []string{`Target\.Epoch$`}},
+	"DOMAIN_RANDAO":                         {"get_current_epoch(state)", []string{`SlotToEpoch\(slot\)$`, `(?i)currentepoch`}},
+	"DOMAIN_BEACON_PROPOSER":                {"compute_epoch_at_slot(header.slot)", []string{`SlotToEpoch\(.*\.Slot\)$`}},
+	"DOMAIN_SELECTION_PROOF":                {"compute_epoch_at_slot(slot)", []string{`SlotToEpoch\(slot\)$`, `SlotToEpoch\(.*\.Slot\)$`}},
+	"DOMAIN_AGGREGATE_AND_PROOF":            {"compute_epoch_at_slot(aggregate.data.slot)", []string{`Target\.Epoch$`, `SlotToEpoch\(.*\.Slot\)$`}},
+	"DOMAIN_SYNC_COMMITTEE":                 {"compute_epoch_at_slot(message slot / previous slot)", []string{`SlotToEpoch\((prevSlot|.*\.Slot)\)$`}},
+	"DOMAIN_SYNC_COMMITTEE_SELECTION_PROOF": {"compute_epoch_at_slot(slot)", []string{`SlotToEpoch\(slot\)$`, `SlotToEpoch\(.*\.Slot\)$`}},
+	"DOMAIN_CONTRIBUTION_AND_PROOF":         {"compute_epoch_at_slot(contribution.slot)", []string{`SlotToEpoch\(.*\.Slot\)$`}},
 }
 
 type blsTracer struct {
@@ -130,10 +148,11 @@ func isDomainVar(o types.Object) bool {
 }
 
 type domainFact struct {
-	name    string // DOMAIN_X
-	version string // leaf name of the fork-version argument when built by ComputeDomain ("" otherwise)
-	root    string // genesis-validators-root argument (for deposit: must be the zero root)
-	via     string
+	epochArg string // resolved epoch argument of the GetDomain / domain-function call ("" if none)
+	name     string // DOMAIN_X
+	version  string // leaf name of the fork-version argument when built by ComputeDomain ("" otherwise)
+	root     string // genesis-validators-root argument (for deposit: must be the zero root)
+	via      string
 }
 
 // traceDomain follows a BLSDomain-valued (or BLSDomainType-valued) expression to DOMAIN_* variables.
@@ -185,12 +204,33 @@ func (t *blsTracer) traceDomain(pk *packages.Package, fd *ast.FuncDecl, e ast.Ex
 			}
 		}
 		// GetDomain(state, D, epoch) / x.GetDomain(D, ...) / domFn(D, epoch): the BLSDomainType-typed argument
-		for _, a := range x.Args {
+		for ai, a := range x.Args {
 			if nt := namedOf(info.TypeOf(a)); nt != nil && nt.Obj().Name() == "BLSDomainType" {
 				fs := t.traceDomain(pk, fd, a, at, depth+1)
+				ep := ""
+				if ai+1 < len(x.Args) {
+					if et := namedOf(info.TypeOf(x.Args[ai+1])); et != nil && et.Obj().Name() == "Epoch" {
+						ee := ast.Unparen(x.Args[ai+1])
+						if id, ok := ee.(*ast.Ident); ok {
+							if paramIndex(fd, info, info.Uses[id]) < 0 {
+								if rhs, _ := lastDefBefore(info, fd, info.Uses[id], x.Pos()); rhs != nil {
+									ee = rhs
+								}
+							} else {
+								ee = nil // a parameter: decided at the caller
+							}
+						}
+						if ee != nil {
+							ep = types.ExprString(ee)
+						}
+					}
+				}
 				for i := range fs {
 					if fs[i].via == "" {
 						fs[i].via = name
+					}
+					if fs[i].epochArg == "" {
+						fs[i].epochArg = ep
 					}
 				}
 				return fs
@@ -341,6 +381,20 @@ func ruleBLSVerify(c *Ctx) {
 							c.bad(key, src.Pos(), "a %s is signed under %s; the spec signs %v under that domain (cross-domain replay: a signature made for another message type verifies here)", obj, df.name, allowed)
 						default:
 							c.ok(key, src.Pos(), "%s under %s (via %s)", obj, df.name, df.via)
+						}
+						if hint, ok := domainEpoch[df.name]; ok && df.epochArg != "" && df.via != "ComputeDomain" {
+							ekey := site + ".epoch[" + df.name + "]"
+							good := false
+							for _, re := range hint.re {
+								if m, _ := regexp.MatchString(re, df.epochArg); m {
+									good = true
+								}
+							}
+							if good {
+								c.ok(ekey, src.Pos(), "fork version selected by %s", df.epochArg)
+							} else {
+								c.bad(ekey, src.Pos(), "the fork version of %s is selected by epoch `%s`; the spec selects it by %s (a message signed under the other fork version verifies across a fork boundary)", df.name, df.epochArg, hint.want)
+							}
 						}
 						if df.via == "ComputeDomain" {
 							vkey := site + ".version[" + df.name + "]"
